@@ -69,6 +69,16 @@ check("C20", "proof",
       "abstracted by the Namespace it returns; json.dumps/print are logged, not interpreted; plus a bounded end-to-end "
       "stand-in of the real main() on concrete streams.",
       "contract-based deductive verification: symbolic execution with collaborator contracts + loop invariant", "DESIGN.md 4/C20")
+check("C15", "proof",
+      "Structural induction on the JSON document: json_to_cel and CELJSONEncoder.to_python are executed symbolically for "
+      "every JSON kind at the root (bool, int64, float, string with arbitrary payloads; null; arrays of 0-3 and objects of "
+      "0-2 abstract children) with the recursive calls on children replaced by the induction hypothesis; postconditions: "
+      "the CEL class and payload per kind (bool never becomes int), element/key order and identity, and "
+      "to_python(json_to_cel(d)) ~ d; ints outside int64 raise. Navigation (.field, [\"key\"], [i]) on converted values "
+      "through the real Evaluator.member_dot/member_index reaches the converted sub-document.",
+      "json module behaviour for int/float/str subclasses, comprehension uniformity in the length; text-level round trip, "
+      "navigation under both runners and timestamp/duration/bytes encodings are a bounded stand-in.",
+      "contract-based deductive verification: structural induction via the function's own contract on sub-documents", "DESIGN.md 4/C15")
 _pending = "contracts for this property are not built yet in this revision (work in progress, see DESIGN.md section 8 build order)"
-for _p in ["C03","C04","C05","C06","C07","C09","C10","C11","C12","C14","C15","C16","C17"]:
+for _p in ["C03","C04","C05","C06","C07","C09","C10","C11","C12","C14","C16","C17"]:
     NA[_p] = _pending
